@@ -1248,6 +1248,11 @@ def rule_r19(repo, run, T):
     from checks import c02
     from sa.report import import_rules
     import_rules(run, R, c02, repo, {"C02.R12"}, only=lambda c: c.startswith("wrapc.compute_cxx_deref"))
+    # const results are cast before they are stored in a `void *`; references leave the wrapper as pointers (C02.R16)
+    import_rules(run, R, c02, repo, {"C02.R16"})
+    # one definition per name: the Python dispatcher of overloads / instantiations is named without their suffixes (C08.R4)
+    from checks import c08
+    import_rules(run, R, c08, repo, {"C08.R4"}, only=lambda c: c.startswith("wrapp."))
 
 
 def rule_r15(repo, run, T):
